@@ -28,13 +28,20 @@ import (
 func init() { engines["C07"] = c07 }
 
 const (
-	allocBase   = 64 << 20 // 64 MiB: generous, the largest legitimate single allocation is one 10 MiB cap
-	allocPerB   = 64
-	cpuBudget   = 5 * time.Second
-	guardHeap   = 12 << 30
-	guardCPU    = 12 * time.Second
-	maxInputLen = 64 << 10
+	allocBase = 64 << 20 // 64 MiB: generous, the largest legitimate single allocation is one 10 MiB cap
+	allocPerB = 64
+	// the combinator parsers (signature, IDL) turn over 2-4.4 KiB of garbage per byte of TEXT they parse
+	// (measured, linear at depths 1k..32k, independent of any length field): TotalAlloc is cumulative
+	// allocation, not memory in use, so parser text gets its own linear allowance
+	allocPerTextB = 8 << 10
+	cpuBudget     = 5 * time.Second
+	guardHeap     = 12 << 30
+	guardCPU      = 12 * time.Second
+	maxInputLen   = 64 << 10
 )
+
+// parserText is the number of bytes of signature text embedded in the input being run (dynsig stream).
+var parserText int
 
 var hostileU32 = []uint32{0xffffffff, 0x80000000, 0x7fffffff, 4096, 4097, 1 << 24, 10 * 1024 * 1024, 10*1024*1024 + 1, 0x00ffffff, 65536}
 
@@ -59,7 +66,11 @@ func hostile(c *wk.Ctx, stream string, i int, entry, class string, in []byte, f 
 		return
 	}
 	alloc := ms1.TotalAlloc - ms0.TotalAlloc
-	if alloc > uint64(allocBase+allocPerB*len(in)) {
+	text := parserText
+	if entry == "signature.Parse" || entry == "idl.ParsePackage" {
+		text = len(in)
+	}
+	if alloc > uint64(allocBase+allocPerB*len(in)+allocPerTextB*text) {
 		detail["allocated"] = alloc
 		c.Viol(stream, i, key+"/kind=alloc", fmt.Sprintf("%s allocated %d MiB for a %d-byte input", entry, alloc>>20, len(in)), detail)
 		return
@@ -131,7 +142,7 @@ func newStubTargets() []stubTarget {
 }
 
 func c07(c *wk.Ctx) {
-	c.Note("rule", "every input runs in the worker under accounting: no panic / fatal error; runtime TotalAlloc delta <= 64 MiB + 64*len(input); process CPU time <= 5 s (a watchdog ends a case that is still running after 12 s of CPU or 12 GiB of heap and reports it under the same key). Inputs (<= 64 KiB): random bytes; valid encodings with each length / count / signature-length field replaced by 0xffffffff, 0x80000000, 0x7fffffff, caps and caps+1, 2^24, len+1; dynamic values with hostile signatures ([v], [()], deep nestings, long names, struct definitions whose names and types disagree in number). Entry points: Message.Read, value.NewValue, signature TypeReader.Read and encoding.Decoder.Decode for random signatures, ReadMetaObject, ReadObjectReference, ReadServiceInfo, ReadCapabilityMap, generated stub Receive (freshly generated Probe stub and the checked-in generic object stub: every action, argument payloads mutated), signature.Parse, idl.ParsePackage. Evaluations count inputs; distinct non-trivial = distinct (entry point, input class, length bucket, outcome).")
+	c.Note("rule", "every input runs in the worker under accounting: no panic / fatal error; runtime TotalAlloc delta <= 64 MiB + 64*len(input) + 8 KiB per byte of signature / IDL text in the input (the combinator parsers turn over 2-4.4 KiB of garbage per text byte, linearly); process CPU time <= 5 s (a watchdog ends a case that is still running after 12 s of CPU or 12 GiB of heap and reports it under the same key). Inputs (<= 64 KiB): random bytes; valid encodings with each length / count / signature-length field replaced by 0xffffffff, 0x80000000, 0x7fffffff, caps and caps+1, 2^24, len+1; dynamic values with hostile signatures ([v], [()], deep nestings, long names, struct definitions whose names and types disagree in number). Entry points: Message.Read, value.NewValue, signature TypeReader.Read and encoding.Decoder.Decode for random signatures, ReadMetaObject, ReadObjectReference, ReadServiceInfo, ReadCapabilityMap, generated stub Receive (freshly generated Probe stub and the checked-in generic object stub: every action, argument payloads mutated), signature.Parse, idl.ParsePackage. Evaluations count inputs; distinct non-trivial = distinct (entry point, input class, length bucket, outcome).")
 	c.Guard(guardHeap, guardCPU)
 	scal := append(append([]rc.Kind{}, rc.AllScalars...), rc.Dyn)
 	inner := rc.GenOpts{Depth: 2, Width: 3, ComparableKeys: true, MaxAnonNest: 3}
@@ -271,6 +282,8 @@ func c07(c *wk.Ctx) {
 		tail := make([]byte, rng.Intn(64))
 		rng.Read(tail)
 		in.Write(tail)
+		parserText = len(sig)
+		defer func() { parserText = 0 }()
 		hostile(c, "dynsig", i, "value.NewValue", class, in.Bytes(), func(b []byte) error { _, err := value.NewValue(bytes.NewReader(b)); return err })
 		hostile(c, "dynsig", i, "signature.Parse", class, []byte(sig), func(b []byte) error { _, err := signature.Parse(string(b)); return err })
 		// inside a capability map value
